@@ -71,6 +71,12 @@ def corpus():
                            steps=[('peer', [rq]), ('fin',)])
     c['A6_unknown_type'] = dict(role='acceptor', steps=[
         ('peer', [rq]), ('peer', [rc.enc_pdu(0x0B, b'\0\0\0\0')]), ('fin',)])
+    c['A4b_abort_then_fin'] = dict(role='acceptor', steps=[
+        ('peer', [rq]), ('peer+fin', store[:1] + [rc.enc_abort(2, 6)])])
+    c['A6b_unknown_len0'] = dict(role='acceptor', steps=[
+        ('peer', [rq]), ('peer', [rc.enc_pdu(0x0B, b'')]), ('fin',)])
+    c['A14_release_then_fin'] = dict(role='acceptor', user={'no_release_rp': True}, steps=[
+        ('peer', [rq]), ('peer+fin', [echo_rq(1)[:20]])])
     c['A7_user_releases'] = dict(role='acceptor', steps=[
         ('peer', [rq]), ('peer', [echo_rq(1)]), ('user', 'release'), ('peer', [rel_rp]), ('fin',)])
     c['A8_user_aborts'] = dict(role='acceptor', steps=[
@@ -171,7 +177,7 @@ def play(convo, plan, seed, prebuffer_first=False, short_reads=False):
     steps = convo['steps']
     role = convo['role']
     pre = b''
-    first_peer = next((i for i, s in enumerate(steps) if s[0] == 'peer'), None)
+    first_peer = next((i for i, s in enumerate(steps) if s[0] in ('peer', 'peer+fin')), None)
     turn_no = -1
     segs_first = None
     if prebuffer_first and role == 'acceptor' and first_peer is not None:
@@ -185,7 +191,7 @@ def play(convo, plan, seed, prebuffer_first=False, short_reads=False):
         user = ReactiveUser(rig, convo.get('user'))
         busy = lambda: user.task.kind not in ('q.get',) and not user.task.done
         for i, st in enumerate(steps):
-            if st[0] == 'peer':
+            if st[0] in ('peer', 'peer+fin'):
                 turn_no += 1
                 data = b''.join(st[1])
                 cuts, gaps = plan.get(turn_no, (None, None)) if plan else (None, None)
@@ -206,6 +212,9 @@ def play(convo, plan, seed, prebuffer_first=False, short_reads=False):
                         g = gaps[j % len(gaps)] if gaps else 0.0
                         if g:
                             rig.advance(g)
+                if st[0] == 'peer+fin' and rig.prov_sock is not None:
+                    # the peer closes right behind its last byte (no pause in non-baseline plans)
+                    rig.peer_fin()
                 obs['settled'] &= rig.settle(extra=busy)
             elif st[0] == 'user':
                 user_action(rig, st[1])
